@@ -264,8 +264,20 @@ def assemble_item(d, info, src, srcfile_label, log):
                 add(f["vis"][0], f["vis"][1], "pub", "VIS")
     # MONO
     mono = parse_mono(d.optarg("mono"))
+    recv = None
+    if d.opt("desugar(mut_self)"):
+        # `fn f(mut self, ..)` -> `fn f(mut self_: Self, ..)` and every `self` in the body -> `self_`
+        # (Verus: "mut self" unsupported; alpha-renaming of the receiver)
+        ps = it.get("params", [])
+        if not ps or not ps[0]["self"] or not src[ps[0]["span"][0]:ps[0]["span"][1]].decode().replace(" ", "") == "mutself":
+            raise Undecided(f"{d.path}: desugar(mut_self) but the receiver is not `mut self`")
+        recv = ps[0]["span"]
+        add(recv[0], recv[1], "mut self_: Self", "DESUGAR_MUT_SELF")
     for name, a, b in it.get("idents", []):
-        if name in mono:
+        if name == "self" and recv is not None:
+            if not (recv[0] <= a < recv[1]):
+                add(a, b, "self_", "DESUGAR_MUT_SELF")
+        elif name in mono:
             add(a, b, mono[name], "MONO")
     if kind == "fn":
         if d.opt("rename"):
@@ -486,8 +498,12 @@ class Assembled:
         return None
 
 
-def assemble(unit_dir, mutate=None):
-    """mutate: optional dict {abs source path: bytes} to substitute file contents (self-test)."""
+FN_HEAD_RE = re.compile(r"^\s*(?:pub\s+)?(?:(proof|exec)\s+)?fn\s+([A-Za-z_]\w*)")
+
+
+def assemble(unit_dir, mutate=None, canary=False):
+    """canary: inject `assert(false)` at the entry of every exec/proof function (vacuity guard);
+    the names of the functions that received one are in out.canaried."""
     tpath = os.path.join(unit_dir, "unit.vrs")
     chunks, sources, meta = parse_template(tpath)
     # group item directives by source file
@@ -509,6 +525,8 @@ def assemble(unit_dir, mutate=None):
         mono_names = set()
         for d in ds:
             mono_names.update(parse_mono(d.optarg("mono")).keys())
+            if d.opt("desugar(mut_self)"):
+                mono_names.add("self")
         paths = []
         for d in ds:
             if d.path not in paths:
@@ -522,11 +540,36 @@ def assemble(unit_dir, mutate=None):
             infos[(alias, e["path"])] = e["item"]
     segs = []
     item_ranges = []
+    out.canaried = []
+    pending = None  # (kind, name) of a template fn whose body-opening brace has not been seen yet
     for c in chunks:
         if c[0] == "text":
-            segs.append(Seg(c[1] + "\n", ("template", c[2])))
+            line = c[1]
+            if canary:
+                m = FN_HEAD_RE.match(line)
+                if m and " spec fn " not in (" " + line) and not line.rstrip().endswith(";") and not line.rstrip().endswith("}"):
+                    pending = (m.group(1) or "exec", m.group(2))
+                    if line.rstrip().endswith("{"):
+                        line = line + (" assert(false);" if pending[0] == "proof" else " proof { assert(false); }")
+                        out.canaried.append(pending[1])
+                        pending = None
+                elif pending and line.rstrip().endswith(";"):
+                    pending = None  # a declaration without body (trait method)
+                elif pending and line.strip() == "{":
+                    line = line + (" assert(false);" if pending[0] == "proof" else " proof { assert(false); }")
+                    out.canaried.append(pending[1])
+                    pending = None
+            segs.append(Seg(line + "\n", ("template", c[2])))
         else:
             d = c[1]
+            if canary and infos[(d.alias, d.path)]["kind"] == "fn" and not d.opt("trusted") and not d.opt("nobody"):
+                import copy
+                d = copy.copy(d)
+                d.sections = list(d.sections) + [("entry", None, ["proof { assert(false); }"])]
+                nm = infos[(d.alias, d.path)]["name"]
+                if d.optarg("rename"):
+                    nm = d.optarg("rename")
+                out.canaried.append(nm)
             info = infos[(d.alias, d.path)]
             label = sources[d.alias]
             src = out.src_cache[label]
